@@ -181,6 +181,32 @@ V("c04-expiry-lt", "C04", "txnkv/txnlock/lock_resolver.go",
   "if lr.store.GetOracle().UntilExpired(l.TxnID, l.TTL, &oracle.Option{TxnScope: oracle.GlobalTxnScope}) <= 1000 {", "C04.R6")
 V("c04-n-extract-helper", "C04", PREW, "\tif c.isOnePC() {\n\t\treq.TryOnePc = true\n\t}\n", "\tonePC := c.isOnePC()\n\tif onePC {\n\t\treq.TryOnePc = true\n\t}\n", "none")
 
+# ---------------------------------------------------------------- C20
+BO = "config/retry/backoff.go"
+BOC = "config/retry/config.go"
+V("c20-budget-gt", "C20", BO, "maxBackoffTimeExceeded := (b.totalSleep - b.excludedSleep) >= b.maxSleep", "maxBackoffTimeExceeded := (b.totalSleep - b.excludedSleep) > b.maxSleep+b.maxSleep", "C20.R1")
+V("c20-budget-ignores-excluded", "C20", BO, "maxBackoffTimeExceeded := (b.totalSleep - b.excludedSleep) >= b.maxSleep", "maxBackoffTimeExceeded := b.totalSleep >= b.maxSleep+b.excludedSleep+b.excludedSleep", "C20.R1")
+V("c20-noop-sleeps", "C20", BO, "\tif b.noop {\n\t\treturn err\n\t}\n", "", "C20.R1")
+V("c20-total-only-non-excluded", "C20", BO,
+  "\tb.totalSleep += realSleep\n\tif _, ok := isSleepExcluded[cfg.name]; ok {\n\t\tb.excludedSleep += realSleep\n\t}\n",
+  "\tif _, ok := isSleepExcluded[cfg.name]; ok {\n\t\tb.excludedSleep += realSleep\n\t} else {\n\t\tb.totalSleep += realSleep\n\t}\n", "C20.R2")
+V("c20-excluded-always", "C20", BO,
+  "\tif _, ok := isSleepExcluded[cfg.name]; ok {\n\t\tb.excludedSleep += realSleep\n\t}\n\tif b.backoffSleepMS == nil {",
+  "\tb.excludedSleep += realSleep\n\tif b.backoffSleepMS == nil {", "C20.R2")
+V("c20-skip-checkkilled", "C20", BO, "\terr2 := b.CheckKilled()\n\tif err2 != nil {\n\t\treturn err2\n\t}\n", "", "C20.R2")
+V("c20-exhausted-returns-arg", "C20", BO, "\t\t\treturnedErr = longestSleepCfg.err\n", "\t\t\t_ = longestSleepCfg.err\n", "C20.R3")
+V("c20-longest-counts-excluded", "C20", BO, "if _, ok := isSleepExcluded[cfgName]; sleepTime > maxSleep && !ok {", "if sleepTime > maxSleep {", "C20.R3")
+V("c20-fork-without-excluded", "C20", BO,
+  "\t\tctx:            ctx,\n\t\tmaxSleep:       b.maxSleep,\n\t\ttotalSleep:     b.totalSleep,\n\t\texcludedSleep:  b.excludedSleep,\n",
+  "\t\tctx:            ctx,\n\t\tmaxSleep:       b.maxSleep,\n\t\ttotalSleep:     b.totalSleep,\n", "C20.R4")
+V("c20-merge-adds", "C20", BO, "\t\t\tb.totalSleep = forked.totalSleep\n", "\t\t\tb.totalSleep += forked.totalSleep\n", "C20.R4")
+V("c20-merge-forgets-excluded", "C20", BO, "\t\t\tb.excludedSleep = forked.excludedSleep\n", "", "C20.R4")
+V("c20-clone-shares-map", "C20", BO, "\t\tbackoffTimes:   copyMapWithoutRecursive(b.backoffTimes),\n\t\tparent:         b.parent,", "\t\tbackoffTimes:   b.backoffTimes,\n\t\tparent:         b.parent,", "C20.R4")
+V("c20-no-clamp", "C20", BOC, "\t\tif maxSleepMs >= 0 && realSleep > maxSleepMs {\n\t\t\trealSleep = maxSleepMs\n\t\t}\n", "", "C20.R5")
+V("c20-expo-no-cap", "C20", BOC, "return int(math.Min(float64(cap), float64(base)*math.Pow(2.0, float64(n))))", "return int(math.Max(float64(cap), float64(base)*math.Pow(2.0, float64(n))))", "C20.R5")
+V("c20-n-rename", "C20", BO, "\trealSleep := f(b.ctx, maxSleepMs)\n\tif cfg.metric != nil {\n\t\t(*cfg.metric).Observe(float64(realSleep) / 1000)\n\t}\n\n\tb.totalSleep += realSleep\n",
+  "\tslept := f(b.ctx, maxSleepMs)\n\trealSleep := slept\n\tif cfg.metric != nil {\n\t\t(*cfg.metric).Observe(float64(realSleep) / 1000)\n\t}\n\n\tb.totalSleep = b.totalSleep + slept\n", "none")
+
 if __name__ == "__main__":
     out = os.path.join(os.path.dirname(os.path.abspath(__file__)), "variants.json")
     json.dump(VARS, open(out, "w"), indent=1)
